@@ -18,7 +18,7 @@ RULE = ("seeded model programs (float/int/Duration clocks) x seeded segmentation
         "canonical (program, schedule) hash")
 ASSUMPTIONS = ["a bounded run whose bound lies before the clock may be refused or be a no-op, but must not execute anything or move the clock backwards",
                "a step with nothing executable executes nothing; the clock may stay anywhere in [clock, end]",
-               "an exclusive bound exactly at the replication end is not generated (the statement leaves it open)",
+               "an exclusive bound exactly at the replication end is generated as the last command only: it must execute the events earlier than the end and none at it; the state it leaves is open and not judged",
                "a bound beyond the replication end behaves like the end itself (clock = end, ENDED)",
                "a stop() issued inside the TIME_CHANGED notification of time t pauses the run no later than the end of instant t (no event later than t runs before the pause); where inside the instant the pause lands is not judged, only that the pieces compose",
                "the scheduling TIME_CHANGED subscriber schedules at the announced time (absolute); its events are judged by exactly-once, their order relative to the announced event is not (the announced event is already taken from the list)"]
@@ -112,6 +112,11 @@ def gen_case(rng, tier, i):
             sched.append(["step"])
         else:
             sched.append(["pause", rng.randint(1, 4)])
+    if rng.random() < 0.12:
+        # last command: an EXCLUSIVE run up to exactly the replication end - it executes the events earlier than the end and none
+        # at it (what state that leaves is open and not judged; nothing follows)
+        sched.append(["run_up_to_at_end", _lit(clock, end)])
+        return {"prog": prog, "sched": sched}
     sched.append(["start"])
     if rng.random() < 0.3:
         sched.append(rng.choice([["step"], ["start"], ["run_up_to_including", _lit(clock, end)]]))     # after the end: must be refused
@@ -374,6 +379,24 @@ def run_case(case, ctx):
                     ctx.viol("not-a-number-bound:accepted-or-changed-something", {**w, "outcome": out, "before": before, "after": snap})
                     return
                 continue
+            if name == "run_up_to_at_end":
+                if not startable:
+                    break
+                out = h.cmd("run_up_to", c[1])
+                if not h.wait_quiescent(20):
+                    ctx.viol("hang:segment-did-not-reach-quiescence", {**w, "snapshot": h.snapshot()})
+                    return
+                seg = ref.run(bound=tnum(prog, c[1]), including=False)
+                ctx.count("exclusive_runs_up_to_exactly_the_end")
+                if out != "ok":
+                    ctx.viol(f"legal-command-refused:run_up_to:{out}", {**w, "before": before})
+                    return
+                if not compare_traces(ctx, h.trace(first), [(t, cl) for t, cl, _ in seg], w, what="segment"):
+                    return
+                if h.snapshot()["clock"] != num(ref.end):
+                    ctx.viol("clock-after-segment:run_up_to", {**w, "got": h.snapshot()["clock"], "want": num(ref.end)})
+                    return
+                break
             if name in ("run_up_to", "run_up_to_including"):
                 b = tnum(prog, c[1])
                 if b in ev_times:
@@ -458,7 +481,7 @@ def run_case(case, ctx):
                     ctx.viol("pending-events-after-segment", {**w, "got": snap["pending"], "want": len(ref.pending)})
                     return
         # composition: the concatenation equals the uninterrupted run
-        if ref.state == "ENDED":
+        if ref.state == "ENDED" and sched[-1][0] != "run_up_to_at_end":
             ctx.count("compositions_judged")
             if not compare_traces(ctx, h.trace(), [(t, cl) for t, cl, _ in full.trace], where, what="composition"):
                 return
